@@ -17,6 +17,7 @@ import (
 // each version edit and the file-conservation invariants (I-files).
 
 type mstate struct {
+	gen     int
 	off     int
 	levels  map[int]map[int64]decode.TableMeta
 	journal int64
@@ -74,7 +75,9 @@ func newMonitor(r *runner, ucmp func(a, b []byte) int) *monitor {
 	}
 	d.H.OnRemove = func(fd storage.FileDesc) {
 		m.poll()
-		if fd.Type != storage.TypeTable {
+		if fd.Type != storage.TypeTable || r.errFaultsFired() > 0 {
+			// after a failed commit the persisted manifest may be ahead of
+			// the version the DB actually installed
 			return
 		}
 		if st := m.current(); st != nil {
@@ -112,8 +115,9 @@ func (m *monitor) poll() {
 	for _, fd := range d.ListFiles(storage.TypeManifest) {
 		data, _ := d.Data(fd)
 		st := m.ms[fd.Num]
-		if st == nil {
-			st = &mstate{levels: map[int]map[int64]decode.TableMeta{}}
+		if st == nil || st.gen != d.Gen(fd) {
+			// new file, or a file number re-created after a crash
+			st = &mstate{levels: map[int]map[int64]decode.TableMeta{}, gen: d.Gen(fd)}
 			m.ms[fd.Num] = st
 		}
 		if len(data) <= st.off {
